@@ -253,7 +253,8 @@ class HierDictDocument(DictDocument):
 
     def _doc_to_object(self, ctx, cls, doc, validator=None):
         if doc is None:
-            return []
+            # an explicit null: no array items, or no object
+            return [] if issubclass(cls, Array) else None
 
         if issubclass(cls, Any):
             doc = self._cast(self.get_cls_attrs(cls), doc)
